@@ -16,7 +16,7 @@
 (***************************************************************************)
 EXTENDS Integers, Sequences, TLC, Json
 
-CONSTANTS Mode, Lits, BinOps, UnOps, Funcs, MaxBin, MaxUn, Chain, Signs
+CONSTANTS Mode, Lits, BinOps, UnOps, Funcs, Funcs2, MaxBin, MaxUn, Chain, Signs
 
 VARIABLES stack, nbin, nun
 
@@ -45,7 +45,14 @@ ApplyFunc(f) ==
      stack' = Append(SubSeq(stack, 1, n - 1), f \o LP \o stack[n] \o RP)
   /\ nun' = nun + 1 /\ UNCHANGED nbin
 
+ApplyFunc2(f) ==     \* two-argument function call f(a, b): counts as a binary operator
+  /\ Len(stack) >= 2 /\ nbin < MaxBin
+  /\ LET n == Len(stack) IN
+     stack' = Append(SubSeq(stack, 1, n - 2), f \o LP \o stack[n - 1] \o <<44, 32>> \o stack[n] \o RP)
+  /\ nbin' = nbin + 1 /\ UNCHANGED nun
+
 TreeNext == \/ \E x \in Lits : Push(x)
+            \/ \E f \in Funcs2 : ApplyFunc2(f)
             \/ \E op \in BinOps : ApplyBin(op)
             \/ \E op \in UnOps : ApplyUn(op)
             \/ \E f \in Funcs : ApplyFunc(f)
